@@ -98,15 +98,56 @@ def _values(hist):
 def scenario(ch, cfg):
     if cfg.get("real"):
         return scenario_real(ch, cfg)
-    fc, kvs = _fc, _kvs
     hist = gen_history(ch)
+    out = _run_simfs(ch, cfg, hist, 0)
+    foreign = out.pop("foreign", [])
+    if foreign and not out["violations"]:
+        # The set of some key touched other names under the store root (a scratch / temporary file?).  Keys are file
+        # names, so those names are keys too: occupy them with values first and run the same history again - the
+        # "harms no other key" oracle then applies to them.
+        extra = [(p, f'"occupied-{i}"') for i, p in enumerate(sorted(foreign)[:3])]
+        out2 = _run_simfs(ch, cfg, extra + hist, len(extra))
+        out2.pop("foreign", None)
+        out2["evaluations"] += out["evaluations"]
+        out2["stats"]["probe_foreign_paths_occupied"] = out2["stats"].get("probe_foreign_paths_occupied", 0) + 1
+        out2["sample"]["foreign_paths_touched_by_set"] = sorted(foreign)[:5]
+        return out2
+    return out
+
+
+def _run_simfs(ch, cfg, hist, nextra):
+    fc, kvs = _fc, _kvs
     vals = _values(hist)
-    w = World(ch, max_steps=20000, policy=ch.weighted([1, 1, 2], "policy"))
+    w = World(ch, max_steps=30000, policy=ch.weighted([1, 1, 2], "policy"))
     fs = SimFS(w, ROOT)
     install_fs(fc, fs)
-    cur = {"store": kvs.KeyValueStorage(ROOT)}
-    sim_cache(cur["store"].cache, w)
+    # one or two live handles (store objects) on the same directory
+    nh = 1 + (ch.draw(3, "handles") == 0)
+    stores = [kvs.KeyValueStorage(ROOT) for _ in range(nh)]
+    for st in stores:
+        sim_cache(st.cache, w)
+    hsel = [0 if i < nextra else ch.draw(nh, "hsel") for i in range(len(hist))]
+    cur = {"store": stores[0]}
     stats = w.stats
+    if nh == 2:
+        stats["probe_two_handles"] += 1
+    # gets issued by the application between the sets, through any handle (they populate that handle's cache)
+    pregets = {i: [(ch.draw(nh, "pgh"), hist[ch.draw(len(hist), "pgk")][0]) for _ in range(ch.draw(3, "npg"))]
+               for i in range(nextra, len(hist)) if ch.draw(3, "preget") == 0}
+    # at most one injected I/O error: the k-th fsync / write / create of the (non-prepended) history fails
+    iofault = None
+    if ch.draw(5, "iofault") == 0:
+        iofault = {"kind": ch.pick(["fsync", "fsync", "write", "creat"], "iokind"), "at": ch.draw(3, "ioat"), "seen": 0, "armed": False, "fired": False}
+
+        def hook(kind, path):
+            if iofault["armed"] and not iofault["fired"] and kind == iofault["kind"]:
+                if iofault["seen"] == iofault["at"]:
+                    iofault["fired"] = True
+                    stats[f"fs_fault_{kind}_EIO"] += 1
+                    import errno as _errno
+                    raise OSError(_errno.EIO if kind != "write" else _errno.ENOSPC, "injected I/O error")
+                iofault["seen"] += 1
+        fs.fault_hook = hook
     # between two sets the application may drop its store object and open a new one on the same directory
     # (nothing is cached then: the next get of an existing key is a real load)
     reopen_before = {i for i in range(1, len(hist)) if ch.draw(4, "reopen") == 0}
@@ -115,9 +156,21 @@ def scenario(ch, cfg):
 
     def writer():
         for i, ((k, lit), v) in enumerate(zip(hist, vals)):
+            cur["store"] = stores[hsel[i]]
+            if iofault is not None and i >= nextra:
+                iofault["armed"] = True
+            for hh, kk in pregets.get(i, ()):
+                try:
+                    stores[hh].get(kk)
+                except SystemExit:
+                    raise
+                except BaseException:   # noqa - the key may not exist yet, or the injected error hit the load
+                    pass
+                stats["probe_get_between_sets"] += 1
             if i in reopen_before:
                 st = kvs.KeyValueStorage(ROOT)
                 sim_cache(st.cache, w)
+                stores[hsel[i]] = st
                 cur["store"] = st
                 stats["probe_reopen_between_sets"] += 1
                 if ch.draw(2, "get_after_reopen") and any(kk == k for kk, _ in hist[:i]):
@@ -140,6 +193,14 @@ def scenario(ch, cfg):
                 refused.add(i)
                 stats["probe_oversize_refused"] += 1
                 fs.mark("refused", i)
+                continue
+            except OSError as e:
+                if iofault is None or not iofault["fired"] or "injected" not in str(e):
+                    raise
+                # the injected I/O error surfaced: the set did not complete, its key may be damaged from now on
+                # (old value, new value or unreadable) until a later set of it completes; other keys stay protected
+                stats["probe_set_failed_on_io_error"] += 1
+                fs.mark("failed", i)
                 continue
             fs.mark("ret", i)
 
@@ -190,6 +251,9 @@ def scenario(ch, cfg):
                     inprog = None
                 elif op[1] == "refused":
                     inprog = None
+                elif op[1] == "failed":
+                    returned.pop(hist[op[2]][0], None)
+                    inprog = None
         if inprog is not None:
             stats["probe_crash_inside_set"] += 1
         if upto > 0 and trace[upto - 1][0] in ("mark", "read", "exists", "getsize", "open"):
@@ -233,7 +297,18 @@ def scenario(ch, cfg):
               "trace": [str(op[:3])[:80] if op[0] != "write" else f"('write', {op[1]!r}, off={op[2]}, {len(op[3])} bytes)" for op in trace][:40],
               "crash_images_checked": images}
     nontriv = len(hist) >= 2 or any("/" in k for k, _ in hist)
-    return {"violations": violations, "stats": dict(stats), "evaluations": images, "digest": None,
+    # names under the store root, other than the key's own file, that a set created / wrote / renamed / removed
+    foreign = set()
+    inprog_key = None
+    for op in trace:
+        if op[0] == "mark":
+            inprog_key = hist[op[2]][0] if op[1] == "inv" else None
+        elif inprog_key is not None and op[0] in ("creat", "trunc", "write", "rename", "unlink"):
+            for pth in (op[1:3] if op[0] == "rename" else op[1:2]):
+                rel = pth[len(ROOT) + 1:]
+                if rel != inprog_key:
+                    foreign.add(rel)
+    return {"violations": violations, "stats": dict(stats), "evaluations": images, "digest": None, "foreign": sorted(foreign),
             "nontrivial_keys": [f"{shape}#{keypat}"] if nontriv else [], "state_keys": [shape], "steps": w.steps,
             "sample": sample, "tail": [str(t)[:100] for t in trace[-40:]]}
 
